@@ -178,7 +178,8 @@ fn worker_run(args: &[String]) -> i32 {
                 if let Err(mut why) = verdict {
                     // does the difference disappear when the notable input variants are avoided?
                     let mut feat = String::new();
-                    if !rendered.feats.is_empty() {
+                    // (not asked when the difference is already nothing but the EXIT trap action not run)
+                    if !rendered.feats.is_empty() && why != "EXIT trap action not run" {
                         let mut rd2 = Renderer::new(s, mode, vi > 0 || variants == 1 && idx % 2 == 1);
                         rd2.avoid_blank_lines = true;
                         let r2 = rd2.program(&tree, e, t);
